@@ -1,6 +1,6 @@
 (* Proof obligations tying the size tables of Model/Fresh.v (C13: how many octets gen_key / gen_iv draw) to
-   SymmetricKeyAlgorithm.key_size / cipher(.block_size) / gen_key / gen_iv as regenerated from /repo's pgpy/constants.py
-   on every run (Gen/Gen_tables.v). *)
+   SymmetricKeyAlgorithm.gen_key / gen_iv (the argument of os.urandom) over key_size / cipher(.block_size) as regenerated
+   from /repo's pgpy/constants.py on every run (Gen/Gen_tables.v). *)
 From Coq Require Import String ZArith List Bool Lia ZifyBool.
 Import ListNotations.
 Require Import PV.Lib.Bytes PV.Model.Fresh PV.Gen.Gen_base PV.Gen.Gen_tables.
@@ -11,17 +11,17 @@ Ltac split_alg a :=
 
 (* gen_key draws key_size // 8 octets; 0 in the model = the property raises NotImplementedError *)
 Lemma refine_key_octets c :
-  key_octets c = match gen_sym_key_size c with GOk b => b / gen_sym_octet_divisor | GRaise _ => 0 end.
+  key_octets c = match gen_sym_gen_key_octets c with GOk n => n | GRaise _ => 0 end.
 Proof.
-  unfold gen_sym_key_size, zhas, gen_sym_key_size_table, gen_sym_octet_divisor, key_octets. cbn [zassoc].
+  unfold gen_sym_gen_key_octets, gen_sym_key_size, zhas, gen_sym_key_size_table, key_octets. cbn [zassoc].
   split_alg c. reflexivity.
 Qed.
 
 (* gen_iv draws block_size // 8 octets *)
 Lemma refine_blk_octets c :
-  blk_octets c = match gen_sym_block_size c with GOk b => b / gen_sym_octet_divisor | GRaise _ => 0 end.
+  blk_octets c = match gen_sym_gen_iv_octets c with GOk n => n | GRaise _ => 0 end.
 Proof.
-  unfold gen_sym_block_size, zhas, gen_sym_block_size_table, gen_sym_octet_divisor, blk_octets. cbn [zassoc].
+  unfold gen_sym_gen_iv_octets, gen_sym_block_size, zhas, gen_sym_block_size_table, blk_octets. cbn [zassoc].
   split_alg c.
   replace ((1 <=? c) && (c <=? 4)) with false by lia. replace ((7 <=? c) && (c <=? 13)) with false by lia. reflexivity.
 Qed.
@@ -29,7 +29,7 @@ Qed.
 (* every cipher with a key size draws a positive number of octets *)
 Lemma refine_key_octets_positive c b : gen_sym_key_size c = GOk b -> 0 < key_octets c.
 Proof.
-  rewrite refine_key_octets. unfold gen_sym_key_size, zhas, gen_sym_key_size_table, gen_sym_octet_divisor. cbn [zassoc].
+  rewrite refine_key_octets. unfold gen_sym_gen_key_octets, gen_sym_key_size, zhas, gen_sym_key_size_table. cbn [zassoc].
   repeat match goal with |- context [Z.eqb c ?k] => destruct (Z.eqb c k); [intros [= <-]; reflexivity|] end.
   discriminate.
 Qed.
